@@ -204,6 +204,16 @@ def main():
         else:
             src = open(os.path.join(COQ, "Props", pid + ".v")).read()
             thms = re.findall(r"^(?:Theorem|Lemma|Example)\s+(\w+)", src, re.M)
+        # thorough tier: the compiled library and everything it depends on is re-checked by the independent checker
+        chk = None
+        if tier == "thorough" and proof_ok:
+            rc_chk, out_chk = sh(f"timeout 1500 coqchk -silent -o -Q . JV JV.Props.{pid} 2>&1", cwd=COQ, timeout=1530)
+            summ = out_chk[out_chk.find("* Theory"):] if "* Theory" in out_chk else out_chk[-1500:]
+            axioms = re.findall(r"^\s{4}(\S.*)$", summ.split("* Constants/Inductives relying on type-in-type")[0], re.M) if "* Axioms" in summ else []
+            chk = {"ok": rc_chk == 0, "axioms_of_the_context": [a.strip() for a in axioms][:60],
+                   "summary": " ".join(summ.split())[:1200]}
+            if rc_chk != 0:
+                proof_ok = False
 
     variant = "Run" if (proof_ok and ok_run) else "RunP"
     harness = importlib.import_module(spec["harness"])
@@ -290,6 +300,7 @@ def main():
             "distribution": res.get("distribution", {}),
             "oracle_checks": res.get("oracle_checks", 0),
             "exhaustive": bool(res.get("exhaustive", False)),
+            **({"coqchk": chk} if chk is not None else {}),
         },
         "assumptions": spec.get("assumptions", []),
         "wall_s": round(time.time() - t0, 1),
